@@ -21,7 +21,8 @@ Definition tor := nat.
 Inductive cmd :=
 | Push (c : chunk) (t : tor)     (* main: HashQueue::push_back *)
 | Remove (t : tor)               (* main: HashQueue::remove(id) *)
-| Dispatch.                      (* either thread: process_callbacks() *)
+| Dispatch                       (* either thread: process_callbacks() *)
+| Loop.                          (* disk thread's event loop: process_callbacks() forever *)
 
 Inductive item :=
 | ICmd (c : cmd)
@@ -78,6 +79,7 @@ Definition label_of (t : nat) (it : item) : label :=
   | ICmd (Push _ _) => L_hcq_push_lock
   | ICmd (Remove _) => L_hcq_remove_lock      (* only when a node matches; see [norm] *)
   | ICmd Dispatch => L_pc_store
+  | ICmd Loop => L_pc_store
   | IPostPerform | IPostWork => L_cbn_lock
   | IPostIntr _ | IPostIntrUnlock => L_cb_interrupt
   | IRemScan _ _ => L_hcq_remove_lock
@@ -159,6 +161,7 @@ Definition step_raw (s : st) (t : nat) : option st :=
         if flag s then Some (set_td s t (IRemDone c x l :: rest)) else None
     | ICmd (Remove _) => None      (* unreachable on a settled state *)
     | ICmd Dispatch => Some (set_td s t (IPcLock :: rest))
+    | ICmd Loop => Some (set_td s t (IPcLock :: ICmd Loop :: rest))
     | IPcLock =>
         match t with
         | O => match mq s with
